@@ -56,6 +56,9 @@ pub fn no_labels(_: &ProgCase) -> Vec<String> {
 
 impl SubCheck for FactCheck {
     type Case = ProgCase;
+    fn crash_guard(&self) -> bool {
+        true
+    }
     fn name(&self) -> &'static str {
         self.name
     }
